@@ -29,10 +29,9 @@ func (msg *MsgCreateVestingAccount) Type() string {
 }
 
 func (msg *MsgCreateVestingAccount) GetSigners() []sdk.AccAddress {
-	fromAddress, err := sdk.AccAddressFromBech32(msg.FromAddress)
-	if err != nil {
-		panic(err)
-	}
+	// a malformed address gives an empty signer instead of a panic (as in the messages of cosmos-sdk): ValidateBasic
+	// reports it, and x/authz asks a wrapped message for its signers before anything validated it
+	fromAddress, _ := sdk.AccAddressFromBech32(msg.FromAddress)
 	return []sdk.AccAddress{fromAddress}
 }
 
